@@ -1,521 +1,28 @@
 //@ unit tokenizer
 //@ serves C11 C04
-//@ must_verify token__layout token__longest Position::from Token::new Token::new_with_pos OffsetStrIter::span ascii_ws ascii_alpha ascii_digit eoi optional not trap complete whitespace comment commatok lbracetok rbracetok lparentok rparentok dotdottok dottok plustok dashtok startok slashtok modulustok pcttok eqeqtok notequaltok matchtok notmatchtok gttok gtequaltok ltequaltok lttok equaltok semicolontok doublecolontok colontok leftsquarebracket rightsquarebracket fatcommatok andtok ortok pipetok selecttok intok istok nottok tracetok failtok functok moduletok lettok importtok includetok asserttok outtok constrainttok converttok astok maptok filtertok reducetok is_symbol_char barewordtok digittok emptytok booleantok end_of_input escapequoted strtok token lemma_boundary_step lemma_ascii_steps lemma_suffix_valid lemma_boundary_is_char_boundary lemma_ascii_on_boundary lemma_ascii_text lemma_fixed_text lemma_starts_1 lemma_starts_2 lemma_starts_first lemma_lits_1 lemma_lits_2 lemma_lits_3 lemma_lits_4 lemma_lits_5 lemma_lits_6 lemma_lits_7 lemma_lits_8 lemma_lits lemma_ws_dep_set lemma_ws_end_bounds lemma_ws_run_is_ascii lemma_cmt_lits lemma_cmt_end_bounds lemma_cmt_stop lemma_cmt_end_least lemma_until_span lemma_sep lemma_run_end_bounds lemma_consume_step lemma_consume_span lemma_true_false_lits lemma_bool_lits lemma_first_bytes lemma_ws_first lemma_subrange_starts
+//@ must_verify StrIter::new StrIter::next StrIter::clone StrIter::get_offset StrIter::line StrIter::column OffsetStrIter::new_with_offsets OffsetStrIter::new OffsetStrIter::next OffsetStrIter::clone OffsetStrIter::get_offset OffsetStrIter::line OffsetStrIter::column Position::from Token::new Token::new_with_pos ascii_ws ascii_alpha ascii_digit eoi optional not trap complete OffsetStrIter::span whitespace comment lemma_line_start_bounds lemma_step_positioned lemma_positioned_bounds lemma_boundary_step lemma_ascii_steps lemma_suffix_valid lemma_boundary_is_char_boundary lemma_ascii_on_boundary lemma_ascii_text lemma_fixed_text lemma_starts_1 lemma_starts_2 lemma_starts_first lemma_ws_dep_set lemma_ws_end_bounds lemma_ws_run_is_ascii lemma_cmt_lits lemma_cmt_end_bounds lemma_cmt_stop lemma_cmt_end_least lemma_until_span
 //@ include prelude/head.rs
 use vstd::utf8::*;
 use std::rc::Rc;
 use std::ops::Index;
 
-// C11 for the recognisers of src/tokenizer/mod.rs: whitespace, comment, the fixed-text recognisers (operators,
-// punctuation, keywords), numbers, barewords, booleans, NULL, strings (shape only; the value is unit lit_roundtrip),
-// end of input, and the ORDERED alternation `token`.
-// Everything executable is extracted: the ucg functions and macros verbatim (make_fn! expanded one layer, R10), the
-// abortable_parser combinators from the pinned dependency (prelude/tokenizer_macros.rs, prelude/tokenizer_ap.rs;
-// what is rewritten there and why is said at each item).
-// Hand-written: the oracle (what a token's text, extent and position must be, from the property statement and the
-// reference grammar), loop clauses, lemmas.
+// C11, first part: the two recognisers that make "layout does not matter" true - `whitespace` and `comment`
+// (src/tokenizer/mod.rs) - under contract, together with everything of abortable_parser 0.2.3 they are built from.
+// Extracted: the two ucg items verbatim (make_fn! expanded one layer, R10); the dependency's combinator macros and
+// functions from the pinned source (prelude/tokenizer_macros.rs, prelude/tokenizer_ap.rs - what is rewritten there,
+// and why, is said at each item).  Hand-written: the oracle and the lemmas (prelude/tokenizer_spec.rs).
+//   whitespace  consumes exactly the maximal run of the bytes `ascii_ws` accepts and fails on an empty run; on a character
+//               boundary of a &str that run is the run of ASCII whitespace (space \t \n VT FF \r); one WS token, empty text,
+//               true start position.
+//   comment     `//`, then everything up to and including the first LF or CRLF (a lone CR is comment text) or the end of
+//               the input; the token's text is exactly the bytes in between; true start position; no panic in the span.
 
 //@ include prelude/tokenizer_macros.rs
-//@ extract src/tokenizer/mod.rs :: macro do_text_token_tok
-//@   rule R0
-//@ end
 
 verus! {
 //@ include prelude/core.rs
 //@ include prelude/stepper_iter.rs
-
-//@ extract src/ast/mod.rs :: struct Position
-//@   rule R0
-//@ end
-//@ extract src/ast/mod.rs :: enum TokenType
-//@   rule R0
-//@ end
-//@ extract src/ast/mod.rs :: struct Token
-//@   rule R0
-//@ end
-
-// ---------- vocabulary ----------
-pub open spec fn bytes_of(i: OffsetStrIter) -> Seq<u8> { src_bytes(i.contained) }
-pub open spec fn off_of(i: OffsetStrIter) -> int { i.contained.offset as int }
-pub open spec fn same_frame(a: OffsetStrIter, b: OffsetStrIter) -> bool {
-    a.contained.source == b.contained.source && a.source_file == b.source_file
-    && a.line_offset == b.line_offset && a.col_offset == b.col_offset
-}
-// r is i's stepper moved to byte offset k, still reporting the true line/column of k
-pub open spec fn moved(i: OffsetStrIter, r: OffsetStrIter, k: int) -> bool {
-    same_frame(r, i) && wf_osi(r) && off_of(r) == k
-}
-// the position a token starting where `i` stands must report: the true line (1 + LFs before), the true column
-// (bytes since the last LF, 1-based), the byte offset (prelude/stepper_iter.rs)
-pub open spec fn pos_is(p: Position, i: OffsetStrIter) -> bool {
-    &&& p.file == i.source_file
-    &&& p.offset == off_of(i)
-    &&& p.line == true_line(bytes_of(i), off_of(i)) + i.line_offset
-    &&& p.column == true_column(bytes_of(i), off_of(i)) + i.col_offset
-}
-
-//@ include prelude/tokenizer_ap.rs
-
-//@ extract src/iter.rs :: impl * From<&'a OffsetStrIter<'a>> for Position :: fn from
-//@   impl_header impl<'a> Position
-//@   ret r
-//@   sig <<<
-        requires wf_osi(*s)
-        ensures pos_is(r, *s)
-//@   >>>
-//@ end
-
-// ---------- Token construction ----------
-// R7: `Token::new<S: Into<Rc<str>>, P: Into<Position>>` is used by the comment recogniser at S = String,
-// P = &OffsetStrIter; `p.into()` is then `<Position as From<&OffsetStrIter>>::from(p)` (src/iter.rs, extracted above).
-//@ extract src/ast/mod.rs :: impl Token :: fn new
-//@   rule R0
-//@   subst "new<S: Into<Rc<str>>, P: Into<Position>>(f: S, typ: TokenType, p: P)" => "new<'a>(f: String, typ: TokenType, p: &'a OffsetStrIter<'a>)"
-//@   subst "p.into()" => "Position::from(p)"
-//@   ret r
-//@   sig <<<
-        requires wf_osi(*p)
-        ensures r.fragment@ == f@, r.typ == typ, pos_is(r.pos, *p)
-//@   >>>
-//@ end
-//@ extract src/ast/mod.rs :: impl Token :: fn new_with_pos
-//@   subst "new_with_pos<S: Into<Rc<str>>>(f: S," => "new_with_pos(f: String,"
-//@   ret r
-//@   sig <<<
-        ensures r.fragment@ == f@, r.typ == typ, r.pos == pos
-//@   >>>
-//@ end
-//@ extract src/ast/mod.rs :: macro make_tok
-//@   rule R0
-//@ end
-
-// =====================================================================================================
-// UTF-8: "the stepper stands on a character boundary"
-// =====================================================================================================
-// on_boundary(bs, k): the rest of the text from k on is well-formed UTF-8 (vstd::utf8::valid_utf8).  For the bytes of a
-// &str this is `str::is_char_boundary(k)` (lemma_boundary_is_char_boundary), and it holds at every ASCII byte and at the
-// end (lemma_ascii_on_boundary): nothing here is a caller obligation.
-#[verifier::opaque]
-pub open spec fn suffix_valid(bs: Seq<u8>, k: int) -> bool { valid_utf8(bs.skip(k)) }
-pub open spec fn on_boundary(bs: Seq<u8>, k: int) -> bool { 0 <= k <= bs.len() && suffix_valid(bs, k) }
-
-// a byte on a boundary is not a continuation byte (10xxxxxx); an ASCII byte is a whole character
-pub proof fn lemma_boundary_step(bs: Seq<u8>, k: int)
-    requires on_boundary(bs, k), k < bs.len()
-    ensures !is_continuation_byte(bs[k]), bs[k] != 0x85, bs[k] != 0xA0, bs[k] < 0x80 ==> on_boundary(bs, k + 1),
-{
-    reveal(suffix_valid);
-    reveal_with_fuel(valid_utf8, 2);
-    assert(bs.skip(k)[0] == bs[k]);
-    assert(bs.skip(k).skip(1) =~= bs.skip(k + 1));
-    assert(0x85u8 & 0xC0 == 0x80 && 0xA0u8 & 0xC0 == 0x80) by (bit_vector);
-}
-pub proof fn lemma_ascii_steps(bs: Seq<u8>, o: int, n: int)
-    requires on_boundary(bs, o), 0 <= n, o + n <= bs.len(), forall|j: int| o <= j < o + n ==> #[trigger] bs[j] < 0x80
-    ensures on_boundary(bs, o + n)
-    decreases n
-{
-    if n > 0 { lemma_ascii_steps(bs, o, n - 1); lemma_boundary_step(bs, o + n - 1); }
-}
-// a byte of well-formed UTF-8 that is not a continuation byte starts a character
-pub proof fn lemma_suffix_valid(bs: Seq<u8>, k: int)
-    requires valid_utf8(bs), 0 <= k < bs.len(), !is_continuation_byte(bs[k])
-    ensures valid_utf8(bs.skip(k))
-    decreases bs.len()
-{
-    if k == 0 {
-        assert(bs.skip(0) =~= bs);
-    } else {
-        let w = length_of_first_scalar(bs);
-        assert(valid_first_scalar(bs));
-        assert(pop_first_scalar(bs) =~= bs.skip(w));
-        assert(forall|j: int| 1 <= j < w ==> is_continuation_byte(#[trigger] bs[j]));
-        assert(w <= k);
-        lemma_suffix_valid(pop_first_scalar(bs), k - w);
-        assert(bs.skip(w).skip(k - w) =~= bs.skip(k));
-    }
-}
-// on_boundary is str::is_char_boundary (vstd's model of it) on the bytes of a &str
-pub proof fn lemma_boundary_is_char_boundary(s: &str, k: int)
-    requires on_boundary(encode_utf8(s@), k)
-    ensures is_char_boundary(encode_utf8(s@), k)
-{
-    let bs = encode_utf8(s@);
-    encode_utf8_valid_utf8(s@);
-    if k < bs.len() {
-        lemma_boundary_step(bs, k);
-        is_char_boundary_iff_not_is_continuation_byte(bs, k);
-    } else {
-        is_char_boundary_start_end_of_seq(bs);
-    }
-}
-// in the bytes of a &str every ASCII byte, and the end, is a character boundary
-pub proof fn lemma_ascii_on_boundary(s: &str, k: int)
-    requires 0 <= k <= encode_utf8(s@).len(), k < encode_utf8(s@).len() ==> encode_utf8(s@)[k] < 0x80
-    ensures on_boundary(encode_utf8(s@), k)
-{
-    reveal(suffix_valid);
-    let bs = encode_utf8(s@);
-    encode_utf8_valid_utf8(s@);
-    if k < bs.len() {
-        let b = bs[k];
-        assert(b < 0x80 ==> b & 0xC0 != 0x80) by (bit_vector);
-        lemma_suffix_valid(bs, k);
-    } else {
-        assert(bs.skip(k) =~= Seq::<u8>::empty());
-    }
-}
-
-// =====================================================================================================
-// text_token!: "the input starts with this text"
-// =====================================================================================================
-pub open spec fn lit(s: &str) -> Seq<u8> { encode_utf8(s@) }
-pub open spec fn prefix_matches(bs: Seq<u8>, o: int, e: Seq<u8>, k: int) -> bool {
-    forall|j: int| 0 <= j < k ==> bs[o + j] == #[trigger] e[j]
-}
-pub open spec fn starts_with_at(bs: Seq<u8>, o: int, e: Seq<u8>) -> bool {
-    0 <= o && o + e.len() <= bs.len() && prefix_matches(bs, o, e, e.len() as int)
-}
-// clauses of the loop of text_token!(start, e): k bytes of e have been compared, `count` of them were equal
-pub open spec fn text_token_inv(start: OffsetStrIter, cur: OffsetStrIter, it: Seq<u8>, e: &str, k: int, count: int) -> bool {
-    &&& it == lit(e) && 0 <= k <= it.len() && 0 <= count <= k
-    &&& moved(start, cur, off_of(start) + k)
-    &&& (count == k) == prefix_matches(bytes_of(start), off_of(start), it, k)
-}
-pub open spec fn text_token_done(start: OffsetStrIter, cur: OffsetStrIter, e: &str, count: int) -> bool {
-    &&& wf_osi(cur) && same_frame(cur, start) && 0 <= count <= lit(e).len()
-    &&& (count == lit(e).len()) == starts_with_at(bytes_of(start), off_of(start), lit(e))
-    &&& count == lit(e).len() ==> off_of(cur) == off_of(start) + lit(e).len()
-}
-
-// ASCII text is its own UTF-8 (vstd::utf8::is_ascii_chars_encode_utf8)
-pub proof fn lemma_ascii_text(t: Seq<char>)
-    requires is_ascii_chars(t)
-    ensures encode_utf8(t).len() == t.len(),
-        forall|j: int| 0 <= j < t.len() ==> #[trigger] encode_utf8(t)[j] == t[j] as u8 && encode_utf8(t)[j] < 0x80,
-{
-    is_ascii_chars_encode_utf8(t);
-}
-// after a fixed ASCII text the stepper is on a character boundary again
-pub proof fn lemma_fixed_text(bs: Seq<u8>, o: int, t: Seq<char>)
-    requires is_ascii_chars(t)
-    ensures encode_utf8(t).len() == t.len(),
-        (on_boundary(bs, o) && starts_with_at(bs, o, encode_utf8(t))) ==> on_boundary(bs, o + t.len()),
-{
-    lemma_ascii_text(t);
-    let e = encode_utf8(t);
-    if on_boundary(bs, o) && starts_with_at(bs, o, e) {
-        assert forall|j: int| o <= j < o + t.len() implies #[trigger] bs[j] < 0x80 by {
-            assert(bs[o + (j - o)] == e[j - o]);
-        }
-        lemma_ascii_steps(bs, o, t.len() as int);
-    }
-}
-pub proof fn lemma_starts_1(bs: Seq<u8>, o: int, a: u8)
-    ensures starts_with_at(bs, o, seq![a]) == (0 <= o < bs.len() && bs[o] == a)
-{
-    let e = seq![a];
-    if starts_with_at(bs, o, e) { assert(bs[o + 0] == e[0]); }
-}
-pub proof fn lemma_starts_2(bs: Seq<u8>, o: int, a: u8, b: u8)
-    ensures starts_with_at(bs, o, seq![a, b]) == (0 <= o && o + 2 <= bs.len() && bs[o] == a && bs[o + 1] == b)
-{
-    let e = seq![a, b];
-    if starts_with_at(bs, o, e) { assert(bs[o + 0] == e[0]); assert(bs[o + 1] == e[1]); }
-}
-pub proof fn lemma_starts_first(bs: Seq<u8>, o: int, e: Seq<u8>)
-    requires e.len() > 0, starts_with_at(bs, o, e)
-    ensures 0 <= o < bs.len(), bs[o] == e[0]
-{
-    assert(bs[o + 0] == e[0]);
-}
-// the byte values of the literals the recognisers look for
-pub proof fn lemma_lits_1()
-    ensures
-        lit(",") =~= seq![0x2Cu8],
-        lit("{") =~= seq![0x7Bu8],
-        lit("}") =~= seq![0x7Du8],
-        lit("(") =~= seq![0x28u8],
-        lit(")") =~= seq![0x29u8],
-        lit("..") =~= seq![0x2Eu8, 0x2Eu8],
-        lit(".") =~= seq![0x2Eu8],
-        lit("+") =~= seq![0x2Bu8],
-{
-    reveal_strlit(","); lemma_ascii_text(","@);
-    reveal_strlit("{"); lemma_ascii_text("{"@);
-    reveal_strlit("}"); lemma_ascii_text("}"@);
-    reveal_strlit("("); lemma_ascii_text("("@);
-    reveal_strlit(")"); lemma_ascii_text(")"@);
-    reveal_strlit(".."); lemma_ascii_text(".."@);
-    reveal_strlit("."); lemma_ascii_text("."@);
-    reveal_strlit("+"); lemma_ascii_text("+"@);
-}
-pub proof fn lemma_lits_2()
-    ensures
-        lit("-") =~= seq![0x2Du8],
-        lit("*") =~= seq![0x2Au8],
-        lit("/") =~= seq![0x2Fu8],
-        lit("%%") =~= seq![0x25u8, 0x25u8],
-        lit("%") =~= seq![0x25u8],
-        lit("==") =~= seq![0x3Du8, 0x3Du8],
-        lit("!=") =~= seq![0x21u8, 0x3Du8],
-        lit("~") =~= seq![0x7Eu8],
-{
-    reveal_strlit("-"); lemma_ascii_text("-"@);
-    reveal_strlit("*"); lemma_ascii_text("*"@);
-    reveal_strlit("/"); lemma_ascii_text("/"@);
-    reveal_strlit("%%"); lemma_ascii_text("%%"@);
-    reveal_strlit("%"); lemma_ascii_text("%"@);
-    reveal_strlit("=="); lemma_ascii_text("=="@);
-    reveal_strlit("!="); lemma_ascii_text("!="@);
-    reveal_strlit("~"); lemma_ascii_text("~"@);
-}
-pub proof fn lemma_lits_3()
-    ensures
-        lit("!~") =~= seq![0x21u8, 0x7Eu8],
-        lit(">") =~= seq![0x3Eu8],
-        lit(">=") =~= seq![0x3Eu8, 0x3Du8],
-        lit("<=") =~= seq![0x3Cu8, 0x3Du8],
-        lit("<") =~= seq![0x3Cu8],
-        lit("=") =~= seq![0x3Du8],
-        lit(";") =~= seq![0x3Bu8],
-        lit("::") =~= seq![0x3Au8, 0x3Au8],
-{
-    reveal_strlit("!~"); lemma_ascii_text("!~"@);
-    reveal_strlit(">"); lemma_ascii_text(">"@);
-    reveal_strlit(">="); lemma_ascii_text(">="@);
-    reveal_strlit("<="); lemma_ascii_text("<="@);
-    reveal_strlit("<"); lemma_ascii_text("<"@);
-    reveal_strlit("="); lemma_ascii_text("="@);
-    reveal_strlit(";"); lemma_ascii_text(";"@);
-    reveal_strlit("::"); lemma_ascii_text("::"@);
-}
-pub proof fn lemma_lits_4()
-    ensures
-        lit(":") =~= seq![0x3Au8],
-        lit("[") =~= seq![0x5Bu8],
-        lit("]") =~= seq![0x5Du8],
-        lit("=>") =~= seq![0x3Du8, 0x3Eu8],
-        lit("&&") =~= seq![0x26u8, 0x26u8],
-        lit("||") =~= seq![0x7Cu8, 0x7Cu8],
-        lit("|") =~= seq![0x7Cu8],
-        lit("select") =~= seq![0x73u8, 0x65u8, 0x6Cu8, 0x65u8, 0x63u8, 0x74u8],
-{
-    reveal_strlit(":"); lemma_ascii_text(":"@);
-    reveal_strlit("["); lemma_ascii_text("["@);
-    reveal_strlit("]"); lemma_ascii_text("]"@);
-    reveal_strlit("=>"); lemma_ascii_text("=>"@);
-    reveal_strlit("&&"); lemma_ascii_text("&&"@);
-    reveal_strlit("||"); lemma_ascii_text("||"@);
-    reveal_strlit("|"); lemma_ascii_text("|"@);
-    reveal_strlit("select"); lemma_ascii_text("select"@);
-}
-pub proof fn lemma_lits_5()
-    ensures
-        lit("in") =~= seq![0x69u8, 0x6Eu8],
-        lit("is") =~= seq![0x69u8, 0x73u8],
-        lit("not") =~= seq![0x6Eu8, 0x6Fu8, 0x74u8],
-        lit("TRACE") =~= seq![0x54u8, 0x52u8, 0x41u8, 0x43u8, 0x45u8],
-        lit("fail") =~= seq![0x66u8, 0x61u8, 0x69u8, 0x6Cu8],
-        lit("func") =~= seq![0x66u8, 0x75u8, 0x6Eu8, 0x63u8],
-        lit("module") =~= seq![0x6Du8, 0x6Fu8, 0x64u8, 0x75u8, 0x6Cu8, 0x65u8],
-        lit("let") =~= seq![0x6Cu8, 0x65u8, 0x74u8],
-{
-    reveal_strlit("in"); lemma_ascii_text("in"@);
-    reveal_strlit("is"); lemma_ascii_text("is"@);
-    reveal_strlit("not"); lemma_ascii_text("not"@);
-    reveal_strlit("TRACE"); lemma_ascii_text("TRACE"@);
-    reveal_strlit("fail"); lemma_ascii_text("fail"@);
-    reveal_strlit("func"); lemma_ascii_text("func"@);
-    reveal_strlit("module"); lemma_ascii_text("module"@);
-    reveal_strlit("let"); lemma_ascii_text("let"@);
-}
-pub proof fn lemma_lits_6()
-    ensures
-        lit("import") =~= seq![0x69u8, 0x6Du8, 0x70u8, 0x6Fu8, 0x72u8, 0x74u8],
-        lit("include") =~= seq![0x69u8, 0x6Eu8, 0x63u8, 0x6Cu8, 0x75u8, 0x64u8, 0x65u8],
-        lit("assert") =~= seq![0x61u8, 0x73u8, 0x73u8, 0x65u8, 0x72u8, 0x74u8],
-        lit("out") =~= seq![0x6Fu8, 0x75u8, 0x74u8],
-        lit("constraint") =~= seq![0x63u8, 0x6Fu8, 0x6Eu8, 0x73u8, 0x74u8, 0x72u8, 0x61u8, 0x69u8, 0x6Eu8, 0x74u8],
-        lit("convert") =~= seq![0x63u8, 0x6Fu8, 0x6Eu8, 0x76u8, 0x65u8, 0x72u8, 0x74u8],
-        lit("as") =~= seq![0x61u8, 0x73u8],
-        lit("map") =~= seq![0x6Du8, 0x61u8, 0x70u8],
-{
-    reveal_strlit("import"); lemma_ascii_text("import"@);
-    reveal_strlit("include"); lemma_ascii_text("include"@);
-    reveal_strlit("assert"); lemma_ascii_text("assert"@);
-    reveal_strlit("out"); lemma_ascii_text("out"@);
-    reveal_strlit("constraint"); lemma_ascii_text("constraint"@);
-    reveal_strlit("convert"); lemma_ascii_text("convert"@);
-    reveal_strlit("as"); lemma_ascii_text("as"@);
-    reveal_strlit("map"); lemma_ascii_text("map"@);
-}
-pub proof fn lemma_lits_7()
-    ensures
-        lit("filter") =~= seq![0x66u8, 0x69u8, 0x6Cu8, 0x74u8, 0x65u8, 0x72u8],
-        lit("reduce") =~= seq![0x72u8, 0x65u8, 0x64u8, 0x75u8, 0x63u8, 0x65u8],
-        lit("NULL") =~= seq![0x4Eu8, 0x55u8, 0x4Cu8, 0x4Cu8],
-        lit("true") =~= seq![0x74u8, 0x72u8, 0x75u8, 0x65u8],
-        lit("false") =~= seq![0x66u8, 0x61u8, 0x6Cu8, 0x73u8, 0x65u8],
-        lit("\"") =~= seq![0x22u8],
-        lit("//") =~= seq![0x2Fu8, 0x2Fu8],
-        lit("\r\n") =~= seq![0x0Du8, 0x0Au8],
-{
-    reveal_strlit("filter"); lemma_ascii_text("filter"@);
-    reveal_strlit("reduce"); lemma_ascii_text("reduce"@);
-    reveal_strlit("NULL"); lemma_ascii_text("NULL"@);
-    reveal_strlit("true"); lemma_ascii_text("true"@);
-    reveal_strlit("false"); lemma_ascii_text("false"@);
-    reveal_strlit("\""); lemma_ascii_text("\""@);
-    reveal_strlit("//"); lemma_ascii_text("//"@);
-    reveal_strlit("\r\n"); lemma_ascii_text("\r\n"@);
-}
-pub proof fn lemma_lits_8()
-    ensures
-        lit("\n") =~= seq![0x0Au8],
-{
-    reveal_strlit("\n"); lemma_ascii_text("\n"@);
-}
-pub proof fn lemma_lits()
-    ensures
-        lit(",") =~= seq![0x2Cu8],
-        lit("{") =~= seq![0x7Bu8],
-        lit("}") =~= seq![0x7Du8],
-        lit("(") =~= seq![0x28u8],
-        lit(")") =~= seq![0x29u8],
-        lit("..") =~= seq![0x2Eu8, 0x2Eu8],
-        lit(".") =~= seq![0x2Eu8],
-        lit("+") =~= seq![0x2Bu8],
-        lit("-") =~= seq![0x2Du8],
-        lit("*") =~= seq![0x2Au8],
-        lit("/") =~= seq![0x2Fu8],
-        lit("%%") =~= seq![0x25u8, 0x25u8],
-        lit("%") =~= seq![0x25u8],
-        lit("==") =~= seq![0x3Du8, 0x3Du8],
-        lit("!=") =~= seq![0x21u8, 0x3Du8],
-        lit("~") =~= seq![0x7Eu8],
-        lit("!~") =~= seq![0x21u8, 0x7Eu8],
-        lit(">") =~= seq![0x3Eu8],
-        lit(">=") =~= seq![0x3Eu8, 0x3Du8],
-        lit("<=") =~= seq![0x3Cu8, 0x3Du8],
-        lit("<") =~= seq![0x3Cu8],
-        lit("=") =~= seq![0x3Du8],
-        lit(";") =~= seq![0x3Bu8],
-        lit("::") =~= seq![0x3Au8, 0x3Au8],
-        lit(":") =~= seq![0x3Au8],
-        lit("[") =~= seq![0x5Bu8],
-        lit("]") =~= seq![0x5Du8],
-        lit("=>") =~= seq![0x3Du8, 0x3Eu8],
-        lit("&&") =~= seq![0x26u8, 0x26u8],
-        lit("||") =~= seq![0x7Cu8, 0x7Cu8],
-        lit("|") =~= seq![0x7Cu8],
-        lit("select") =~= seq![0x73u8, 0x65u8, 0x6Cu8, 0x65u8, 0x63u8, 0x74u8],
-        lit("in") =~= seq![0x69u8, 0x6Eu8],
-        lit("is") =~= seq![0x69u8, 0x73u8],
-        lit("not") =~= seq![0x6Eu8, 0x6Fu8, 0x74u8],
-        lit("TRACE") =~= seq![0x54u8, 0x52u8, 0x41u8, 0x43u8, 0x45u8],
-        lit("fail") =~= seq![0x66u8, 0x61u8, 0x69u8, 0x6Cu8],
-        lit("func") =~= seq![0x66u8, 0x75u8, 0x6Eu8, 0x63u8],
-        lit("module") =~= seq![0x6Du8, 0x6Fu8, 0x64u8, 0x75u8, 0x6Cu8, 0x65u8],
-        lit("let") =~= seq![0x6Cu8, 0x65u8, 0x74u8],
-        lit("import") =~= seq![0x69u8, 0x6Du8, 0x70u8, 0x6Fu8, 0x72u8, 0x74u8],
-        lit("include") =~= seq![0x69u8, 0x6Eu8, 0x63u8, 0x6Cu8, 0x75u8, 0x64u8, 0x65u8],
-        lit("assert") =~= seq![0x61u8, 0x73u8, 0x73u8, 0x65u8, 0x72u8, 0x74u8],
-        lit("out") =~= seq![0x6Fu8, 0x75u8, 0x74u8],
-        lit("constraint") =~= seq![0x63u8, 0x6Fu8, 0x6Eu8, 0x73u8, 0x74u8, 0x72u8, 0x61u8, 0x69u8, 0x6Eu8, 0x74u8],
-        lit("convert") =~= seq![0x63u8, 0x6Fu8, 0x6Eu8, 0x76u8, 0x65u8, 0x72u8, 0x74u8],
-        lit("as") =~= seq![0x61u8, 0x73u8],
-        lit("map") =~= seq![0x6Du8, 0x61u8, 0x70u8],
-        lit("filter") =~= seq![0x66u8, 0x69u8, 0x6Cu8, 0x74u8, 0x65u8, 0x72u8],
-        lit("reduce") =~= seq![0x72u8, 0x65u8, 0x64u8, 0x75u8, 0x63u8, 0x65u8],
-        lit("NULL") =~= seq![0x4Eu8, 0x55u8, 0x4Cu8, 0x4Cu8],
-        lit("true") =~= seq![0x74u8, 0x72u8, 0x75u8, 0x65u8],
-        lit("false") =~= seq![0x66u8, 0x61u8, 0x6Cu8, 0x73u8, 0x65u8],
-        lit("\"") =~= seq![0x22u8],
-        lit("//") =~= seq![0x2Fu8, 0x2Fu8],
-        lit("\r\n") =~= seq![0x0Du8, 0x0Au8],
-        lit("\n") =~= seq![0x0Au8],
-{
-    lemma_lits_1();
-    lemma_lits_2();
-    lemma_lits_3();
-    lemma_lits_4();
-    lemma_lits_5();
-    lemma_lits_6();
-    lemma_lits_7();
-    lemma_lits_8();
-}
-
-// =====================================================================================================
-// whitespace
-// =====================================================================================================
-// the oracle: ASCII whitespace = u8::is_ascii_whitespace (space, \t, \n, form feed, \r) plus vertical tab.  The reference
-// grammar only says "WS is any non-visible utf-8 whitespace"; `ascii_ws` of the pinned abortable_parser 0.2.3 asks
-// `(byte as char).is_whitespace()`, i.e. exactly these six bytes plus 0x85 and 0xA0 (lemma_ws_dep_set), which in the
-// bytes of a &str only occur inside multi-byte characters (lemma_ws_run_is_ascii).
-pub open spec fn ws_ascii(b: u8) -> bool { b == 0x20 || b == 0x09 || b == 0x0A || b == 0x0B || b == 0x0C || b == 0x0D }
-pub proof fn lemma_ws_dep_set(b: u8)
-    ensures ws_dep(b) == (ws_ascii(b) || b == 0x85 || b == 0xA0)
-{
-}
-// end of the maximal run of bytes `ascii_ws` accepts that starts at k
-pub open spec fn ws_end(bs: Seq<u8>, k: int) -> int
-    decreases bs.len() - k
-{
-    if 0 <= k < bs.len() && ws_dep(bs[k]) { ws_end(bs, k + 1) } else { k }
-}
-// ... and of the maximal run of ASCII whitespace (the oracle)
-pub open spec fn ws_ascii_end(bs: Seq<u8>, k: int) -> int
-    decreases bs.len() - k
-{
-    if 0 <= k < bs.len() && ws_ascii(bs[k]) { ws_ascii_end(bs, k + 1) } else { k }
-}
-pub proof fn lemma_ws_end_bounds(bs: Seq<u8>, k: int)
-    requires 0 <= k <= bs.len()
-    ensures k <= ws_end(bs, k) <= bs.len(), k <= ws_ascii_end(bs, k) <= bs.len(),
-    decreases bs.len() - k
-{
-    if k < bs.len() { lemma_ws_end_bounds(bs, k + 1); }
-}
-// On a character boundary of well-formed UTF-8 the two extra bytes never occur: the run `ascii_ws` consumes is the run
-// of ASCII whitespace, and it ends on a character boundary again.
-pub proof fn lemma_ws_run_is_ascii(bs: Seq<u8>, k: int)
-    requires on_boundary(bs, k)
-    ensures ws_end(bs, k) == ws_ascii_end(bs, k), on_boundary(bs, ws_end(bs, k)),
-    decreases bs.len() - k
-{
-    if k < bs.len() {
-        lemma_boundary_step(bs, k);
-        lemma_ws_dep_set(bs[k]);
-        if ws_dep(bs[k]) { lemma_ws_run_is_ascii(bs, k + 1); }
-    }
-}
-// clauses of the loop in repeat!(ascii_ws): `cur` is `start` moved forward inside the run that begins at `start`
-pub open spec fn repeat_inv(start: OffsetStrIter, cur: OffsetStrIter) -> bool {
-    &&& wf_osi(start) && moved(start, cur, off_of(cur))
-    &&& off_of(start) <= off_of(cur) <= bytes_of(start).len()
-    &&& ws_end(bytes_of(start), off_of(cur)) == ws_end(bytes_of(start), off_of(start))
-}
-pub open spec fn repeat_done(start: OffsetStrIter, cur: OffsetStrIter) -> bool {
-    &&& wf_osi(start) && moved(start, cur, off_of(cur))
-    &&& off_of(cur) == ws_end(bytes_of(start), off_of(start))
-}
-pub open spec fn repeat_left(cur: OffsetStrIter) -> int { bytes_of(cur).len() - off_of(cur) }
-
-pub open spec fn whitespace_tok<'a>(i: OffsetStrIter<'a>, r: Result<OffsetStrIter<'a>, Token>) -> bool {
-    let bs = bytes_of(i); let o = off_of(i);
-    &&& if ws_end(bs, o) == o {
-            // empty run: no token
-            r is Fail
-        } else {
-            // exactly the maximal run is consumed; one WS token with empty text at the true start position
-            r matches Result::Complete(rest, tok) && off_of(rest) == ws_end(bs, o)
-            && tok.typ is WS && tok.fragment@ =~= Seq::<char>::empty() && token_shape(i, rest, tok)
-        }
-    // the run is the run of ASCII whitespace (space, \t, \n, VT, FF, \r) whenever the stepper stands on a character
-    // boundary (it always does: `tokenize` keeps it there)
-    &&& on_boundary(bs, o) ==> ws_end(bs, o) == ws_ascii_end(bs, o)
-}
+//@ include prelude/tokenizer_spec.rs
 
 //@ extract src/tokenizer/mod.rs :: make_fn whitespace
 //@   ret r
@@ -535,94 +42,6 @@ pub open spec fn whitespace_tok<'a>(i: OffsetStrIter<'a>, r: Result<OffsetStrIte
 //@   mutant ws_single_byte "_ => repeat!(ascii_ws)," => "_ => ascii_ws," expect whitespace
 //@   mutant ws_pos_at_end "span => input!(), _ => peek!(ascii_ws), _ => repeat!(ascii_ws)," => "_ => peek!(ascii_ws), _ => repeat!(ascii_ws), span => input!()," expect whitespace
 //@ end
-
-// =====================================================================================================
-// comment
-// =====================================================================================================
-pub open spec fn is_lf(bs: Seq<u8>, j: int) -> bool { 0 <= j < bs.len() && bs[j] == 0x0A }
-pub open spec fn is_crlf(bs: Seq<u8>, j: int) -> bool { 0 <= j && j + 1 < bs.len() && bs[j] == 0x0D && bs[j + 1] == 0x0A }
-// the comment text ends at j: end of input, LF, or CR LF.  A CR that is not followed by LF is comment text.
-pub open spec fn cmt_ends_at(bs: Seq<u8>, j: int) -> bool { j >= bs.len() || is_lf(bs, j) || is_crlf(bs, j) }
-// the first such position at or after s
-pub open spec fn cmt_end(bs: Seq<u8>, s: int) -> int
-    decreases bs.len() - s
-{
-    if s >= bs.len() || cmt_ends_at(bs, s) { s } else { cmt_end(bs, s + 1) }
-}
-// where the next token starts: after the line terminator, which belongs to the comment token but not to its text
-pub open spec fn cmt_next(bs: Seq<u8>, e: int) -> int { if is_crlf(bs, e) { e + 2 } else if is_lf(bs, e) { e + 1 } else { e } }
-pub open spec fn starts_comment(bs: Seq<u8>, o: int) -> bool { 0 <= o && o + 2 <= bs.len() && bs[o] == 0x2F && bs[o + 1] == 0x2F }
-
-pub proof fn lemma_cmt_lits()
-    ensures lit("//") =~= seq![0x2Fu8, 0x2Fu8], lit("\r\n") =~= seq![0x0Du8, 0x0Au8], lit("\n") =~= seq![0x0Au8],
-{
-    reveal_strlit("//"); lemma_ascii_text("//"@);
-    reveal_strlit("\r\n"); lemma_ascii_text("\r\n"@);
-    reveal_strlit("\n"); lemma_ascii_text("\n"@);
-}
-pub proof fn lemma_cmt_end_bounds(bs: Seq<u8>, s: int)
-    requires 0 <= s <= bs.len()
-    ensures s <= cmt_end(bs, s) <= bs.len(), s <= cmt_next(bs, cmt_end(bs, s)) <= bs.len()
-    decreases bs.len() - s
-{
-    if s < bs.len() && !cmt_ends_at(bs, s) { lemma_cmt_end_bounds(bs, s + 1); }
-}
-
-// the rule until! is used with, as the combinators see it: either!(eoi, text_token!("\r\n"), text_token!("\n"))
-pub open spec fn cmt_stop(bs: Seq<u8>, j: int) -> bool {
-    j >= bs.len() || starts_with_at(bs, j, lit("\r\n")) || starts_with_at(bs, j, lit("\n"))
-}
-pub proof fn lemma_cmt_stop(bs: Seq<u8>, j: int)
-    requires 0 <= j
-    ensures cmt_stop(bs, j) == cmt_ends_at(bs, j),
-        starts_with_at(bs, j, lit("\r\n")) == is_crlf(bs, j), starts_with_at(bs, j, lit("\n")) == is_lf(bs, j),
-{
-    lemma_cmt_lits();
-    lemma_starts_2(bs, j, 0x0D, 0x0A); lemma_starts_1(bs, j, 0x0A);
-}
-pub proof fn lemma_cmt_end_least(bs: Seq<u8>, s: int, e: int)
-    requires 0 <= s <= e <= bs.len(), cmt_ends_at(bs, e), forall|j: int| s <= j < e ==> !cmt_ends_at(bs, j)
-    ensures cmt_end(bs, s) == e
-    decreases e - s
-{
-    if s < e { lemma_cmt_end_least(bs, s + 1, e); }
-}
-// clauses of the loop of until!(start, <the rule above>): no terminator between `start` and `cur`
-pub open spec fn until_inv(start: OffsetStrIter, cur: OffsetStrIter) -> bool {
-    &&& wf_osi(start) && on_boundary(bytes_of(start), off_of(start))
-    &&& moved(start, cur, off_of(cur)) && off_of(start) <= off_of(cur) <= bytes_of(start).len()
-    &&& forall|j: int| off_of(start) <= j < off_of(cur) ==> !cmt_stop(bytes_of(start), j)
-}
-pub open spec fn until_post<'a>(start: OffsetStrIter<'a>, r: Result<OffsetStrIter<'a>, &'a str>) -> bool {
-    r matches Result::Complete(rest, sp) && (until_inv(start, rest) && cmt_stop(bytes_of(start), off_of(rest))
-    && encode_utf8(sp@) == bytes_of(start).subrange(off_of(start), off_of(rest)))
-}
-// the span until! cuts out lies on character boundaries
-pub proof fn lemma_until_span(start: OffsetStrIter, cur: OffsetStrIter)
-    requires until_inv(start, cur), cmt_stop(bytes_of(start), off_of(cur))
-    ensures span_ok(bytes_of(start), off_of(start), off_of(cur))
-{
-    let bs = bytes_of(start);
-    lemma_boundary_is_char_boundary(start.contained.source, off_of(start));
-    lemma_cmt_stop(bs, off_of(cur));
-    lemma_ascii_on_boundary(start.contained.source, off_of(cur));
-    lemma_boundary_is_char_boundary(start.contained.source, off_of(cur));
-}
-
-pub open spec fn comment_tok<'a>(input: OffsetStrIter<'a>, r: Result<OffsetStrIter<'a>, Token>) -> bool {
-    let bs = bytes_of(input); let o = off_of(input);
-    if !starts_comment(bs, o) {
-        // does not start with `//`: not a comment
-        r is Fail
-    } else {
-        let s = o + 2; let e = cmt_end(bs, s);
-        // one COMMENT token: its text is exactly the bytes between `//` and the terminator, its position is the
-        // true position of the first `/`; the next token starts after the terminator, on a character boundary
-        r matches Result::Complete(rest, tok) && off_of(rest) == cmt_next(bs, e)
-        && tok.typ is COMMENT && encode_utf8(tok.fragment@) == bs.subrange(s, e)
-        && on_boundary(bs, cmt_next(bs, e)) && token_shape(input, rest, tok)
-    }
-}
 
 //@ extract src/tokenizer/mod.rs :: fn comment
 // names the elided lifetime (the closure signature inside until! has to mention it)
@@ -665,1001 +84,6 @@ pub open spec fn comment_tok<'a>(input: OffsetStrIter<'a>, r: Result<OffsetStrIt
 //@   mutant cmt_needs_newline "either!( eoi, discard!" => "either!( discard!" expect comment
 //@ end
 
-// =====================================================================================================
-// fixed-text recognisers: operators, punctuation (do_text_token_tok!) and keywords (its WS variant)
-// =====================================================================================================
-// succeeds iff the input starts with the text; the token is that text, at the true position; nothing else is consumed
-pub open spec fn fixed_tok<'a>(i: OffsetStrIter<'a>, r: Result<OffsetStrIter<'a>, Token>, text: &str, typ: TokenType) -> bool {
-    let bs = bytes_of(i); let o = off_of(i); let n = lit(text).len();
-    if starts_with_at(bs, o, lit(text)) {
-        r matches Result::Complete(rest, tok) && off_of(rest) == o + n && n > 0
-        && tok.typ == typ && tok.fragment@ == text@ && token_shape(i, rest, tok)
-    } else {
-        r is Fail
-    }
-}
-// a keyword must be followed by a separator: whitespace or a comment, which the recogniser consumes as well
-pub open spec fn sep_at(bs: Seq<u8>, k: int) -> bool { ws_end(bs, k) != k || starts_comment(bs, k) }
-pub open spec fn sep_end(bs: Seq<u8>, k: int) -> int {
-    if ws_end(bs, k) != k { ws_end(bs, k) } else { cmt_next(bs, cmt_end(bs, k + 2)) }
-}
-pub open spec fn keyword_tok<'a>(i: OffsetStrIter<'a>, r: Result<OffsetStrIter<'a>, Token>, text: &str) -> bool {
-    let bs = bytes_of(i); let o = off_of(i); let n = lit(text).len();
-    if starts_with_at(bs, o, lit(text)) && sep_at(bs, o + n) {
-        r matches Result::Complete(rest, tok) && off_of(rest) == sep_end(bs, o + n) && sep_end(bs, o + n) > o + n && n > 0
-        && tok.typ is BAREWORD && tok.fragment@ == text@ && token_shape(i, rest, tok)
-    } else {
-        r is Fail
-    }
-}
-pub proof fn lemma_sep(bs: Seq<u8>, k: int)
-    requires 0 <= k <= bs.len()
-    ensures sep_at(bs, k) ==> k < sep_end(bs, k) <= bs.len()
-{
-    lemma_ws_end_bounds(bs, k);
-    if starts_comment(bs, k) { lemma_cmt_end_bounds(bs, k + 2); }
-}
-
-//@ extract src/tokenizer/mod.rs :: make_fn commatok
-//@   ret r
-//@   sig <<<
-    requires wf_osi(i)
-    ensures fixed_tok(i, r, ",", TokenType::PUNCT)
-//@   >>>
-//@   body_start <<<
-    proof { reveal_strlit(","); lemma_fixed_text(bytes_of(i), off_of(i), ","@); }
-//@   >>>
-//@ end
-//@ extract src/tokenizer/mod.rs :: make_fn lbracetok
-//@   ret r
-//@   sig <<<
-    requires wf_osi(i)
-    ensures fixed_tok(i, r, "{", TokenType::PUNCT)
-//@   >>>
-//@   body_start <<<
-    proof { reveal_strlit("{"); lemma_fixed_text(bytes_of(i), off_of(i), "{"@); }
-//@   >>>
-//@ end
-//@ extract src/tokenizer/mod.rs :: make_fn rbracetok
-//@   ret r
-//@   sig <<<
-    requires wf_osi(i)
-    ensures fixed_tok(i, r, "}", TokenType::PUNCT)
-//@   >>>
-//@   body_start <<<
-    proof { reveal_strlit("}"); lemma_fixed_text(bytes_of(i), off_of(i), "}"@); }
-//@   >>>
-//@ end
-//@ extract src/tokenizer/mod.rs :: make_fn lparentok
-//@   ret r
-//@   sig <<<
-    requires wf_osi(i)
-    ensures fixed_tok(i, r, "(", TokenType::PUNCT)
-//@   >>>
-//@   body_start <<<
-    proof { reveal_strlit("("); lemma_fixed_text(bytes_of(i), off_of(i), "("@); }
-//@   >>>
-//@ end
-//@ extract src/tokenizer/mod.rs :: make_fn rparentok
-//@   ret r
-//@   sig <<<
-    requires wf_osi(i)
-    ensures fixed_tok(i, r, ")", TokenType::PUNCT)
-//@   >>>
-//@   body_start <<<
-    proof { reveal_strlit(")"); lemma_fixed_text(bytes_of(i), off_of(i), ")"@); }
-//@   >>>
-//@ end
-//@ extract src/tokenizer/mod.rs :: make_fn dotdottok
-//@   ret r
-//@   sig <<<
-    requires wf_osi(i)
-    ensures fixed_tok(i, r, "..", TokenType::PUNCT)
-//@   >>>
-//@   body_start <<<
-    proof { reveal_strlit(".."); lemma_fixed_text(bytes_of(i), off_of(i), ".."@); }
-//@   >>>
-//@ end
-//@ extract src/tokenizer/mod.rs :: make_fn dottok
-//@   ret r
-//@   sig <<<
-    requires wf_osi(i)
-    ensures fixed_tok(i, r, ".", TokenType::PUNCT)
-//@   >>>
-//@   body_start <<<
-    proof { reveal_strlit("."); lemma_fixed_text(bytes_of(i), off_of(i), "."@); }
-//@   >>>
-//@ end
-//@ extract src/tokenizer/mod.rs :: make_fn plustok
-//@   ret r
-//@   sig <<<
-    requires wf_osi(i)
-    ensures fixed_tok(i, r, "+", TokenType::PUNCT)
-//@   >>>
-//@   body_start <<<
-    proof { reveal_strlit("+"); lemma_fixed_text(bytes_of(i), off_of(i), "+"@); }
-//@   >>>
-//@ end
-//@ extract src/tokenizer/mod.rs :: make_fn dashtok
-//@   ret r
-//@   sig <<<
-    requires wf_osi(i)
-    ensures fixed_tok(i, r, "-", TokenType::PUNCT)
-//@   >>>
-//@   body_start <<<
-    proof { reveal_strlit("-"); lemma_fixed_text(bytes_of(i), off_of(i), "-"@); }
-//@   >>>
-//@ end
-//@ extract src/tokenizer/mod.rs :: make_fn startok
-//@   ret r
-//@   sig <<<
-    requires wf_osi(i)
-    ensures fixed_tok(i, r, "*", TokenType::PUNCT)
-//@   >>>
-//@   body_start <<<
-    proof { reveal_strlit("*"); lemma_fixed_text(bytes_of(i), off_of(i), "*"@); }
-//@   >>>
-//@ end
-//@ extract src/tokenizer/mod.rs :: make_fn slashtok
-//@   ret r
-//@   sig <<<
-    requires wf_osi(i)
-    ensures fixed_tok(i, r, "/", TokenType::PUNCT)
-//@   >>>
-//@   body_start <<<
-    proof { reveal_strlit("/"); lemma_fixed_text(bytes_of(i), off_of(i), "/"@); }
-//@   >>>
-//@ end
-//@ extract src/tokenizer/mod.rs :: make_fn modulustok
-//@   ret r
-//@   sig <<<
-    requires wf_osi(i)
-    ensures fixed_tok(i, r, "%%", TokenType::PUNCT)
-//@   >>>
-//@   body_start <<<
-    proof { reveal_strlit("%%"); lemma_fixed_text(bytes_of(i), off_of(i), "%%"@); }
-//@   >>>
-//@ end
-//@ extract src/tokenizer/mod.rs :: make_fn pcttok
-//@   ret r
-//@   sig <<<
-    requires wf_osi(i)
-    ensures fixed_tok(i, r, "%", TokenType::PUNCT)
-//@   >>>
-//@   body_start <<<
-    proof { reveal_strlit("%"); lemma_fixed_text(bytes_of(i), off_of(i), "%"@); }
-//@   >>>
-//@ end
-//@ extract src/tokenizer/mod.rs :: make_fn eqeqtok
-//@   ret r
-//@   sig <<<
-    requires wf_osi(i)
-    ensures fixed_tok(i, r, "==", TokenType::PUNCT)
-//@   >>>
-//@   body_start <<<
-    proof { reveal_strlit("=="); lemma_fixed_text(bytes_of(i), off_of(i), "=="@); }
-//@   >>>
-//@ end
-//@ extract src/tokenizer/mod.rs :: make_fn notequaltok
-//@   ret r
-//@   sig <<<
-    requires wf_osi(i)
-    ensures fixed_tok(i, r, "!=", TokenType::PUNCT)
-//@   >>>
-//@   body_start <<<
-    proof { reveal_strlit("!="); lemma_fixed_text(bytes_of(i), off_of(i), "!="@); }
-//@   >>>
-//@ end
-//@ extract src/tokenizer/mod.rs :: make_fn matchtok
-//@   ret r
-//@   sig <<<
-    requires wf_osi(i)
-    ensures fixed_tok(i, r, "~", TokenType::PUNCT)
-//@   >>>
-//@   body_start <<<
-    proof { reveal_strlit("~"); lemma_fixed_text(bytes_of(i), off_of(i), "~"@); }
-//@   >>>
-//@ end
-//@ extract src/tokenizer/mod.rs :: make_fn notmatchtok
-//@   ret r
-//@   sig <<<
-    requires wf_osi(i)
-    ensures fixed_tok(i, r, "!~", TokenType::PUNCT)
-//@   >>>
-//@   body_start <<<
-    proof { reveal_strlit("!~"); lemma_fixed_text(bytes_of(i), off_of(i), "!~"@); }
-//@   >>>
-//@ end
-//@ extract src/tokenizer/mod.rs :: make_fn gttok
-//@   ret r
-//@   sig <<<
-    requires wf_osi(i)
-    ensures fixed_tok(i, r, ">", TokenType::PUNCT)
-//@   >>>
-//@   body_start <<<
-    proof { reveal_strlit(">"); lemma_fixed_text(bytes_of(i), off_of(i), ">"@); }
-//@   >>>
-//@ end
-//@ extract src/tokenizer/mod.rs :: make_fn gtequaltok
-//@   ret r
-//@   sig <<<
-    requires wf_osi(i)
-    ensures fixed_tok(i, r, ">=", TokenType::PUNCT)
-//@   >>>
-//@   body_start <<<
-    proof { reveal_strlit(">="); lemma_fixed_text(bytes_of(i), off_of(i), ">="@); }
-//@   >>>
-//@ end
-//@ extract src/tokenizer/mod.rs :: make_fn ltequaltok
-//@   ret r
-//@   sig <<<
-    requires wf_osi(i)
-    ensures fixed_tok(i, r, "<=", TokenType::PUNCT)
-//@   >>>
-//@   body_start <<<
-    proof { reveal_strlit("<="); lemma_fixed_text(bytes_of(i), off_of(i), "<="@); }
-//@   >>>
-//@ end
-//@ extract src/tokenizer/mod.rs :: make_fn lttok
-//@   ret r
-//@   sig <<<
-    requires wf_osi(i)
-    ensures fixed_tok(i, r, "<", TokenType::PUNCT)
-//@   >>>
-//@   body_start <<<
-    proof { reveal_strlit("<"); lemma_fixed_text(bytes_of(i), off_of(i), "<"@); }
-//@   >>>
-//@ end
-//@ extract src/tokenizer/mod.rs :: make_fn equaltok
-//@   ret r
-//@   sig <<<
-    requires wf_osi(i)
-    ensures fixed_tok(i, r, "=", TokenType::PUNCT)
-//@   >>>
-//@   body_start <<<
-    proof { reveal_strlit("="); lemma_fixed_text(bytes_of(i), off_of(i), "="@); }
-//@   >>>
-//@ end
-//@ extract src/tokenizer/mod.rs :: make_fn semicolontok
-//@   ret r
-//@   sig <<<
-    requires wf_osi(i)
-    ensures fixed_tok(i, r, ";", TokenType::PUNCT)
-//@   >>>
-//@   body_start <<<
-    proof { reveal_strlit(";"); lemma_fixed_text(bytes_of(i), off_of(i), ";"@); }
-//@   >>>
-//@ end
-//@ extract src/tokenizer/mod.rs :: make_fn doublecolontok
-//@   ret r
-//@   sig <<<
-    requires wf_osi(i)
-    ensures fixed_tok(i, r, "::", TokenType::PUNCT)
-//@   >>>
-//@   body_start <<<
-    proof { reveal_strlit("::"); lemma_fixed_text(bytes_of(i), off_of(i), "::"@); }
-//@   >>>
-//@ end
-//@ extract src/tokenizer/mod.rs :: make_fn colontok
-//@   ret r
-//@   sig <<<
-    requires wf_osi(i)
-    ensures fixed_tok(i, r, ":", TokenType::PUNCT)
-//@   >>>
-//@   body_start <<<
-    proof { reveal_strlit(":"); lemma_fixed_text(bytes_of(i), off_of(i), ":"@); }
-//@   >>>
-//@ end
-//@ extract src/tokenizer/mod.rs :: make_fn leftsquarebracket
-//@   ret r
-//@   sig <<<
-    requires wf_osi(i)
-    ensures fixed_tok(i, r, "[", TokenType::PUNCT)
-//@   >>>
-//@   body_start <<<
-    proof { reveal_strlit("["); lemma_fixed_text(bytes_of(i), off_of(i), "["@); }
-//@   >>>
-//@ end
-//@ extract src/tokenizer/mod.rs :: make_fn rightsquarebracket
-//@   ret r
-//@   sig <<<
-    requires wf_osi(i)
-    ensures fixed_tok(i, r, "]", TokenType::PUNCT)
-//@   >>>
-//@   body_start <<<
-    proof { reveal_strlit("]"); lemma_fixed_text(bytes_of(i), off_of(i), "]"@); }
-//@   >>>
-//@ end
-//@ extract src/tokenizer/mod.rs :: make_fn fatcommatok
-//@   ret r
-//@   sig <<<
-    requires wf_osi(i)
-    ensures fixed_tok(i, r, "=>", TokenType::PUNCT)
-//@   >>>
-//@   body_start <<<
-    proof { reveal_strlit("=>"); lemma_fixed_text(bytes_of(i), off_of(i), "=>"@); }
-//@   >>>
-//@ end
-//@ extract src/tokenizer/mod.rs :: make_fn andtok
-//@   ret r
-//@   sig <<<
-    requires wf_osi(i)
-    ensures fixed_tok(i, r, "&&", TokenType::PUNCT)
-//@   >>>
-//@   body_start <<<
-    proof { reveal_strlit("&&"); lemma_fixed_text(bytes_of(i), off_of(i), "&&"@); }
-//@   >>>
-//@ end
-//@ extract src/tokenizer/mod.rs :: make_fn ortok
-//@   ret r
-//@   sig <<<
-    requires wf_osi(i)
-    ensures fixed_tok(i, r, "||", TokenType::PUNCT)
-//@   >>>
-//@   body_start <<<
-    proof { reveal_strlit("||"); lemma_fixed_text(bytes_of(i), off_of(i), "||"@); }
-//@   >>>
-//@ end
-//@ extract src/tokenizer/mod.rs :: make_fn pipetok
-//@   ret r
-//@   sig <<<
-    requires wf_osi(i)
-    ensures fixed_tok(i, r, "|", TokenType::PUNCT)
-//@   >>>
-//@   body_start <<<
-    proof { reveal_strlit("|"); lemma_fixed_text(bytes_of(i), off_of(i), "|"@); }
-//@   >>>
-//@ end
-//@ extract src/tokenizer/mod.rs :: make_fn selecttok
-//@   ret r
-//@   sig <<<
-    requires wf_osi(i)
-    ensures keyword_tok(i, r, "select")
-//@   >>>
-//@   body_start <<<
-    proof { reveal_strlit("select"); lemma_fixed_text(bytes_of(i), off_of(i), "select"@); if starts_with_at(bytes_of(i), off_of(i), lit("select")) { lemma_sep(bytes_of(i), off_of(i) + lit("select").len()); } }
-//@   >>>
-//@ end
-//@ extract src/tokenizer/mod.rs :: make_fn intok
-//@   ret r
-//@   sig <<<
-    requires wf_osi(i)
-    ensures keyword_tok(i, r, "in")
-//@   >>>
-//@   body_start <<<
-    proof { reveal_strlit("in"); lemma_fixed_text(bytes_of(i), off_of(i), "in"@); if starts_with_at(bytes_of(i), off_of(i), lit("in")) { lemma_sep(bytes_of(i), off_of(i) + lit("in").len()); } }
-//@   >>>
-//@ end
-//@ extract src/tokenizer/mod.rs :: make_fn istok
-//@   ret r
-//@   sig <<<
-    requires wf_osi(i)
-    ensures keyword_tok(i, r, "is")
-//@   >>>
-//@   body_start <<<
-    proof { reveal_strlit("is"); lemma_fixed_text(bytes_of(i), off_of(i), "is"@); if starts_with_at(bytes_of(i), off_of(i), lit("is")) { lemma_sep(bytes_of(i), off_of(i) + lit("is").len()); } }
-//@   >>>
-//@ end
-//@ extract src/tokenizer/mod.rs :: make_fn nottok
-//@   ret r
-//@   sig <<<
-    requires wf_osi(i)
-    ensures keyword_tok(i, r, "not")
-//@   >>>
-//@   body_start <<<
-    proof { reveal_strlit("not"); lemma_fixed_text(bytes_of(i), off_of(i), "not"@); if starts_with_at(bytes_of(i), off_of(i), lit("not")) { lemma_sep(bytes_of(i), off_of(i) + lit("not").len()); } }
-//@   >>>
-//@ end
-//@ extract src/tokenizer/mod.rs :: make_fn tracetok
-//@   ret r
-//@   sig <<<
-    requires wf_osi(i)
-    ensures keyword_tok(i, r, "TRACE")
-//@   >>>
-//@   body_start <<<
-    proof { reveal_strlit("TRACE"); lemma_fixed_text(bytes_of(i), off_of(i), "TRACE"@); if starts_with_at(bytes_of(i), off_of(i), lit("TRACE")) { lemma_sep(bytes_of(i), off_of(i) + lit("TRACE").len()); } }
-//@   >>>
-//@ end
-//@ extract src/tokenizer/mod.rs :: make_fn failtok
-//@   ret r
-//@   sig <<<
-    requires wf_osi(i)
-    ensures keyword_tok(i, r, "fail")
-//@   >>>
-//@   body_start <<<
-    proof { reveal_strlit("fail"); lemma_fixed_text(bytes_of(i), off_of(i), "fail"@); if starts_with_at(bytes_of(i), off_of(i), lit("fail")) { lemma_sep(bytes_of(i), off_of(i) + lit("fail").len()); } }
-//@   >>>
-//@ end
-//@ extract src/tokenizer/mod.rs :: make_fn functok
-//@   ret r
-//@   sig <<<
-    requires wf_osi(i)
-    ensures keyword_tok(i, r, "func")
-//@   >>>
-//@   body_start <<<
-    proof { reveal_strlit("func"); lemma_fixed_text(bytes_of(i), off_of(i), "func"@); if starts_with_at(bytes_of(i), off_of(i), lit("func")) { lemma_sep(bytes_of(i), off_of(i) + lit("func").len()); } }
-//@   >>>
-//@ end
-//@ extract src/tokenizer/mod.rs :: make_fn moduletok
-//@   ret r
-//@   sig <<<
-    requires wf_osi(i)
-    ensures keyword_tok(i, r, "module")
-//@   >>>
-//@   body_start <<<
-    proof { reveal_strlit("module"); lemma_fixed_text(bytes_of(i), off_of(i), "module"@); if starts_with_at(bytes_of(i), off_of(i), lit("module")) { lemma_sep(bytes_of(i), off_of(i) + lit("module").len()); } }
-//@   >>>
-//@ end
-//@ extract src/tokenizer/mod.rs :: make_fn lettok
-//@   ret r
-//@   sig <<<
-    requires wf_osi(i)
-    ensures keyword_tok(i, r, "let")
-//@   >>>
-//@   body_start <<<
-    proof { reveal_strlit("let"); lemma_fixed_text(bytes_of(i), off_of(i), "let"@); if starts_with_at(bytes_of(i), off_of(i), lit("let")) { lemma_sep(bytes_of(i), off_of(i) + lit("let").len()); } }
-//@   >>>
-//@ end
-//@ extract src/tokenizer/mod.rs :: make_fn importtok
-//@   ret r
-//@   sig <<<
-    requires wf_osi(i)
-    ensures keyword_tok(i, r, "import")
-//@   >>>
-//@   body_start <<<
-    proof { reveal_strlit("import"); lemma_fixed_text(bytes_of(i), off_of(i), "import"@); if starts_with_at(bytes_of(i), off_of(i), lit("import")) { lemma_sep(bytes_of(i), off_of(i) + lit("import").len()); } }
-//@   >>>
-//@ end
-//@ extract src/tokenizer/mod.rs :: make_fn includetok
-//@   ret r
-//@   sig <<<
-    requires wf_osi(i)
-    ensures keyword_tok(i, r, "include")
-//@   >>>
-//@   body_start <<<
-    proof { reveal_strlit("include"); lemma_fixed_text(bytes_of(i), off_of(i), "include"@); if starts_with_at(bytes_of(i), off_of(i), lit("include")) { lemma_sep(bytes_of(i), off_of(i) + lit("include").len()); } }
-//@   >>>
-//@ end
-//@ extract src/tokenizer/mod.rs :: make_fn asserttok
-//@   ret r
-//@   sig <<<
-    requires wf_osi(i)
-    ensures keyword_tok(i, r, "assert")
-//@   >>>
-//@   body_start <<<
-    proof { reveal_strlit("assert"); lemma_fixed_text(bytes_of(i), off_of(i), "assert"@); if starts_with_at(bytes_of(i), off_of(i), lit("assert")) { lemma_sep(bytes_of(i), off_of(i) + lit("assert").len()); } }
-//@   >>>
-//@ end
-//@ extract src/tokenizer/mod.rs :: make_fn outtok
-//@   ret r
-//@   sig <<<
-    requires wf_osi(i)
-    ensures keyword_tok(i, r, "out")
-//@   >>>
-//@   body_start <<<
-    proof { reveal_strlit("out"); lemma_fixed_text(bytes_of(i), off_of(i), "out"@); if starts_with_at(bytes_of(i), off_of(i), lit("out")) { lemma_sep(bytes_of(i), off_of(i) + lit("out").len()); } }
-//@   >>>
-//@ end
-//@ extract src/tokenizer/mod.rs :: make_fn constrainttok
-//@   ret r
-//@   sig <<<
-    requires wf_osi(i)
-    ensures keyword_tok(i, r, "constraint")
-//@   >>>
-//@   body_start <<<
-    proof { reveal_strlit("constraint"); lemma_fixed_text(bytes_of(i), off_of(i), "constraint"@); if starts_with_at(bytes_of(i), off_of(i), lit("constraint")) { lemma_sep(bytes_of(i), off_of(i) + lit("constraint").len()); } }
-//@   >>>
-//@ end
-//@ extract src/tokenizer/mod.rs :: make_fn converttok
-//@   ret r
-//@   sig <<<
-    requires wf_osi(i)
-    ensures keyword_tok(i, r, "convert")
-//@   >>>
-//@   body_start <<<
-    proof { reveal_strlit("convert"); lemma_fixed_text(bytes_of(i), off_of(i), "convert"@); if starts_with_at(bytes_of(i), off_of(i), lit("convert")) { lemma_sep(bytes_of(i), off_of(i) + lit("convert").len()); } }
-//@   >>>
-//@ end
-//@ extract src/tokenizer/mod.rs :: make_fn astok
-//@   ret r
-//@   sig <<<
-    requires wf_osi(i)
-    ensures keyword_tok(i, r, "as")
-//@   >>>
-//@   body_start <<<
-    proof { reveal_strlit("as"); lemma_fixed_text(bytes_of(i), off_of(i), "as"@); if starts_with_at(bytes_of(i), off_of(i), lit("as")) { lemma_sep(bytes_of(i), off_of(i) + lit("as").len()); } }
-//@   >>>
-//@ end
-//@ extract src/tokenizer/mod.rs :: make_fn maptok
-//@   ret r
-//@   sig <<<
-    requires wf_osi(i)
-    ensures keyword_tok(i, r, "map")
-//@   >>>
-//@   body_start <<<
-    proof { reveal_strlit("map"); lemma_fixed_text(bytes_of(i), off_of(i), "map"@); if starts_with_at(bytes_of(i), off_of(i), lit("map")) { lemma_sep(bytes_of(i), off_of(i) + lit("map").len()); } }
-//@   >>>
-//@ end
-//@ extract src/tokenizer/mod.rs :: make_fn filtertok
-//@   ret r
-//@   sig <<<
-    requires wf_osi(i)
-    ensures keyword_tok(i, r, "filter")
-//@   >>>
-//@   body_start <<<
-    proof { reveal_strlit("filter"); lemma_fixed_text(bytes_of(i), off_of(i), "filter"@); if starts_with_at(bytes_of(i), off_of(i), lit("filter")) { lemma_sep(bytes_of(i), off_of(i) + lit("filter").len()); } }
-//@   >>>
-//@ end
-//@ extract src/tokenizer/mod.rs :: make_fn reducetok
-//@   ret r
-//@   sig <<<
-    requires wf_osi(i)
-    ensures keyword_tok(i, r, "reduce")
-//@   >>>
-//@   body_start <<<
-    proof { reveal_strlit("reduce"); lemma_fixed_text(bytes_of(i), off_of(i), "reduce"@); if starts_with_at(bytes_of(i), off_of(i), lit("reduce")) { lemma_sep(bytes_of(i), off_of(i) + lit("reduce").len()); } }
-//@   >>>
-//@ end
-
-// =====================================================================================================
-// runs of a byte class: numbers and barewords (consume_all!)
-// =====================================================================================================
-pub enum ByteClass { Symbol, Digit }
-// reference/grammar.md: "bareword: ASCII_CHAR, { DIGIT | VISIBLE_CHAR | "_" }"; the tokenizer's symbol characters are the
-// ASCII letters, the digits, '-' and '_'
-pub open spec fn sym_byte(b: u8) -> bool { alpha_byte(b) || digit_byte(b) || b == 0x2D || b == 0x5F }
-pub open spec fn in_class(c: ByteClass, b: u8) -> bool {
-    match c { ByteClass::Symbol => sym_byte(b), ByteClass::Digit => digit_byte(b) }
-}
-// consume_all!(rule) names the class of its rule as `rule::class()`: modules named like the two rules (type namespace)
-pub mod is_symbol_char { use super::*; pub open spec fn class() -> ByteClass { ByteClass::Symbol } }
-pub mod ascii_digit { use super::*; pub open spec fn class() -> ByteClass { ByteClass::Digit } }
-
-// end of the maximal run of bytes of class c that starts at k
-pub open spec fn run_end(bs: Seq<u8>, k: int, c: ByteClass) -> int
-    decreases bs.len() - k
-{
-    if 0 <= k < bs.len() && in_class(c, bs[k]) { run_end(bs, k + 1, c) } else { k }
-}
-pub proof fn lemma_run_end_bounds(bs: Seq<u8>, k: int, c: ByteClass)
-    requires 0 <= k <= bs.len()
-    ensures k <= run_end(bs, k, c) <= bs.len()
-    decreases bs.len() - k
-{
-    if k < bs.len() { lemma_run_end_bounds(bs, k + 1, c); }
-}
-pub open spec fn sym_at(bs: Seq<u8>, k: int) -> bool { 0 <= k < bs.len() && sym_byte(bs[k]) }
-
-// clauses of the loop of consume_all!(start, rule)
-pub open spec fn consume_inv(start: OffsetStrIter, cur: OffsetStrIter, c: ByteClass) -> bool {
-    &&& wf_osi(start) && on_boundary(bytes_of(start), off_of(start))
-    &&& moved(start, cur, off_of(cur)) && off_of(start) <= off_of(cur) <= bytes_of(start).len()
-    &&& on_boundary(bytes_of(start), off_of(cur))
-    &&& run_end(bytes_of(start), off_of(cur), c) == run_end(bytes_of(start), off_of(start), c)
-}
-pub open spec fn consume_post<'a>(start: OffsetStrIter<'a>, r: Result<OffsetStrIter<'a>, &'a str>, c: ByteClass) -> bool {
-    let bs = bytes_of(start); let o = off_of(start); let e = run_end(bs, o, c);
-    r matches Result::Complete(rest, sp) && (moved(start, rest, e) && encode_utf8(sp@) == bs.subrange(o, e) && on_boundary(bs, e))
-}
-// the rule accepted the byte at `cur`: it is ASCII, so the next offset is a boundary again, in the same run
-pub proof fn lemma_consume_step(start: OffsetStrIter, cur: OffsetStrIter, c: ByteClass)
-    requires consume_inv(start, cur, c), off_of(cur) < bytes_of(start).len(), in_class(c, bytes_of(start)[off_of(cur)])
-    ensures on_boundary(bytes_of(start), off_of(cur) + 1),
-        run_end(bytes_of(start), off_of(cur) + 1, c) == run_end(bytes_of(start), off_of(start), c)
-{
-    lemma_boundary_step(bytes_of(start), off_of(cur));
-}
-pub proof fn lemma_consume_span(start: OffsetStrIter, cur: OffsetStrIter, c: ByteClass)
-    requires consume_inv(start, cur, c)
-    ensures span_ok(bytes_of(start), off_of(start), off_of(cur))
-{
-    lemma_boundary_is_char_boundary(start.contained.source, off_of(start));
-    lemma_boundary_is_char_boundary(start.contained.source, off_of(cur));
-}
-
-//@ extract src/tokenizer/mod.rs :: fn is_symbol_char
-//@   ret r
-//@   sig <<<
-    requires wf_osi(i)
-    ensures one_byte(i, r, sym_byte(cur_byte(i)))
-//@   >>>
-//@   mutant sym_no_dash "c == b'-' ||" => "" expect is_symbol_char
-//@ end
-
-// a token whose text is the maximal run of class c starting at the cursor
-pub open spec fn run_tok<'a>(i: OffsetStrIter<'a>, r: Result<OffsetStrIter<'a>, Token>, first_ok: bool, c: ByteClass, typ: TokenType) -> bool {
-    let bs = bytes_of(i); let o = off_of(i); let e = run_end(bs, o, c);
-    if o < bs.len() && first_ok {
-        r matches Result::Complete(rest, tok) && off_of(rest) == e && e > o
-        && tok.typ == typ && encode_utf8(tok.fragment@) == bs.subrange(o, e) && on_boundary(bs, e) && token_shape(i, rest, tok)
-    } else {
-        r is Fail
-    }
-}
-
-// BAREWORD: a letter followed by symbol characters, as many as there are
-//@ extract src/tokenizer/mod.rs :: make_fn barewordtok
-//@   subst "fn barewordtok(i: OffsetStrIter) -> Result<OffsetStrIter, Token>" => "fn barewordtok<'a>(i: OffsetStrIter<'a>) -> Result<OffsetStrIter<'a>, Token>"
-//@   ret r
-//@   sig <<<
-    requires wf_osi(i)
-    ensures run_tok(i, r, alpha_byte(cur_byte(i)), ByteClass::Symbol, TokenType::BAREWORD)
-//@   >>>
-//@   body_start <<<
-    proof {
-        let bs = bytes_of(i); let o = off_of(i);
-        if o < bs.len() && alpha_byte(bs[o]) { lemma_ascii_on_boundary(i.contained.source, o); lemma_run_end_bounds(bs, o + 1, ByteClass::Symbol); lemma_subrange_starts(bs, o, run_end(bs, o, ByteClass::Symbol)); }
-    }
-//@   >>>
-//@   mutant bareword_digit_start "peek!(ascii_alpha)" => "peek!(ascii_digit)" expect barewordtok
-//@ end
-// DIGIT: the maximal run of digits
-//@ extract src/tokenizer/mod.rs :: make_fn digittok
-//@   subst "fn digittok(i: OffsetStrIter) -> Result<OffsetStrIter, Token>" => "fn digittok<'a>(i: OffsetStrIter<'a>) -> Result<OffsetStrIter<'a>, Token>"
-//@   ret r
-//@   sig <<<
-    requires wf_osi(i)
-    ensures run_tok(i, r, digit_byte(cur_byte(i)), ByteClass::Digit, TokenType::DIGIT)
-//@   >>>
-//@   body_start <<<
-    proof {
-        let bs = bytes_of(i); let o = off_of(i);
-        if o < bs.len() && digit_byte(bs[o]) { lemma_ascii_on_boundary(i.contained.source, o); lemma_run_end_bounds(bs, o + 1, ByteClass::Digit); lemma_subrange_starts(bs, o, run_end(bs, o, ByteClass::Digit)); }
-    }
-//@   >>>
-//@   mutant digits_as_symbols "consume_all!(ascii_digit)" => "consume_all!(is_symbol_char)" expect digittok
-//@ end
-
-// =====================================================================================================
-// whole-word literals: NULL, true, false
-// =====================================================================================================
-pub open spec fn word_tok<'a>(i: OffsetStrIter<'a>, r: Result<OffsetStrIter<'a>, Token>, text: &str, typ: TokenType) -> bool {
-    let bs = bytes_of(i); let o = off_of(i); let n = lit(text).len();
-    starts_with_at(bs, o, lit(text)) && !sym_at(bs, o + n)
-    && (r matches Result::Complete(rest, tok) && off_of(rest) == o + n && n > 0
-        && tok.typ == typ && tok.fragment@ == text@ && token_shape(i, rest, tok))
-}
-pub proof fn lemma_true_false_lits()
-    ensures lit("true").len() == 4, lit("true")[0] == 0x74, lit("false").len() == 5, lit("false")[0] == 0x66,
-{
-    reveal_strlit("true"); lemma_ascii_text("true"@);
-    reveal_strlit("false"); lemma_ascii_text("false"@);
-}
-pub proof fn lemma_bool_lits(bs: Seq<u8>, o: int)
-    ensures
-        lit("true").len() == 4, lit("false").len() == 5,
-        !(starts_with_at(bs, o, lit("true")) && starts_with_at(bs, o, lit("false"))),
-        (on_boundary(bs, o) && starts_with_at(bs, o, lit("true"))) ==> on_boundary(bs, o + 4),
-        (on_boundary(bs, o) && starts_with_at(bs, o, lit("false"))) ==> on_boundary(bs, o + 5),
-{
-    lemma_true_false_lits();
-    reveal_strlit("true"); lemma_fixed_text(bs, o, "true"@);
-    reveal_strlit("false"); lemma_fixed_text(bs, o, "false"@);
-    if starts_with_at(bs, o, lit("true")) { lemma_starts_first(bs, o, lit("true")); }
-    if starts_with_at(bs, o, lit("false")) { lemma_starts_first(bs, o, lit("false")); }
-}
-//@ extract src/tokenizer/mod.rs :: make_fn emptytok
-//@   ret r
-//@   sig <<<
-    requires wf_osi(i)
-    ensures word_tok(i, r, "NULL", TokenType::EMPTY) || r is Fail,
-        r is Fail == !(starts_with_at(bytes_of(i), off_of(i), lit("NULL")) && !sym_at(bytes_of(i), off_of(i) + 4)),
-//@   >>>
-//@   body_start <<<
-    proof { reveal_strlit("NULL"); lemma_fixed_text(bytes_of(i), off_of(i), "NULL"@); }
-//@   >>>
-//@   mutant null_prefix_of_word "_ => not!(is_symbol_char)," => "" expect emptytok
-//@ end
-//@ extract src/tokenizer/mod.rs :: make_fn booleantok
-//@   ret r
-//@   sig <<<
-    requires wf_osi(i)
-    ensures word_tok(i, r, "true", TokenType::BOOLEAN) || word_tok(i, r, "false", TokenType::BOOLEAN) || r is Fail,
-        r is Fail == !((starts_with_at(bytes_of(i), off_of(i), lit("true")) && !sym_at(bytes_of(i), off_of(i) + 4))
-                    || (starts_with_at(bytes_of(i), off_of(i), lit("false")) && !sym_at(bytes_of(i), off_of(i) + 5))),
-//@   >>>
-//@   body_start <<<
-    proof {
-        lemma_bool_lits(bytes_of(i), off_of(i));
-    }
-//@   >>>
-//@ end
-
-// =====================================================================================================
-// end of input, strings
-// =====================================================================================================
-//@ extract src/tokenizer/mod.rs :: make_fn end_of_input
-//@   ret r
-//@   sig <<<
-    requires wf_osi(i)
-    ensures
-        off_of(i) >= bytes_of(i).len() ==> (r matches Result::Complete(rest, tok) && rest == i
-            && tok.typ is END && tok.fragment@ =~= Seq::<char>::empty() && token_shape(i, rest, tok)),
-        off_of(i) < bytes_of(i).len() ==> r is Fail,
-//@   >>>
-//@   body_start <<<
-    proof { reveal_strlit(""); }
-//@   >>>
-//@ end
-
-// The string body scanner: its VALUE contract (escapes decoded, every other byte preserved) is units/lit_roundtrip.
-// Here only its shape, which `token`/`tokenize` need: it stops right after an unescaped closing quote.
-//@ extract src/tokenizer/mod.rs :: fn escapequoted
-//@   subst "while let Some(&c) = _input.next() {" => "while let Some(c__r) = _input.next() { let c = *c__r;"
-//@   ret r
-//@   sig <<<
-    requires wf_osi(input)
-    ensures
-        r matches Result::Complete(rest, frag) ==> moved(input, rest, off_of(rest)) && off_of(input) < off_of(rest) <= bytes_of(input).len()
-            && bytes_of(input)[off_of(rest) - 1] == 0x22,
-        r matches Result::Incomplete(rest) ==> moved(input, rest, bytes_of(input).len() as int),
-        !(r is Abort),
-//@   >>>
-//@   loop 1 <<<
-        invariant
-            wf_osi(_input), same_frame(_input, input),
-            off_of(input) <= off_of(_input) <= bytes_of(input).len(),
-        ensures
-            wf_osi(_input), same_frame(_input, input), off_of(_input) == bytes_of(input).len(),
-        decreases bytes_of(input).len() - off_of(_input)
-//@   >>>
-//@ end
-
-pub open spec fn str_tok<'a>(i: OffsetStrIter<'a>, r: Result<OffsetStrIter<'a>, Token>) -> bool {
-    let bs = bytes_of(i); let o = off_of(i);
-    &&& !(0 <= o < bs.len() && bs[o] == 0x22) ==> r is Fail
-    &&& r matches Result::Complete(rest, tok) ==> tok.typ is QUOTED && on_boundary(bs, off_of(rest)) && token_shape(i, rest, tok)
-    &&& !(r is Abort)
-}
-//@ extract src/tokenizer/mod.rs :: make_fn strtok
-//@   ret r
-//@   sig <<<
-    requires wf_osi(i)
-    ensures str_tok(i, r)
-//@   >>>
-//@   body_start <<<
-    proof {
-        reveal_strlit("\""); lemma_ascii_text("\""@); assert(lit("\"") =~= seq![0x22u8]); lemma_starts_1(bytes_of(i), off_of(i), 0x22);
-        // the closing quote is ASCII: what follows it starts a character
-        assert forall|k: int| 0 < k <= bytes_of(i).len() && bytes_of(i)[k - 1] == 0x22 implies on_boundary(bytes_of(i), k) by {
-            lemma_ascii_on_boundary(i.contained.source, k - 1);
-            lemma_boundary_step(bytes_of(i), k - 1);
-        }
-    }
-//@   >>>
-//@ end
-
-
-// =====================================================================================================
-// token: the ORDERED alternation
-// =====================================================================================================
-// every fixed text `token` looks for, in bytes: the one- and two-byte operators exactly, the words by their first byte
-pub proof fn lemma_first_bytes(bs: Seq<u8>, o: int)
-    ensures
-        starts_with_at(bs, o, lit(",")) == (0 <= o < bs.len() && bs[o] == 0x2C),
-        starts_with_at(bs, o, lit("{")) == (0 <= o < bs.len() && bs[o] == 0x7B),
-        starts_with_at(bs, o, lit("}")) == (0 <= o < bs.len() && bs[o] == 0x7D),
-        starts_with_at(bs, o, lit("(")) == (0 <= o < bs.len() && bs[o] == 0x28),
-        starts_with_at(bs, o, lit(")")) == (0 <= o < bs.len() && bs[o] == 0x29),
-        lit("..").len() == 2 && starts_with_at(bs, o, lit("..")) == (0 <= o && o + 2 <= bs.len() && bs[o] == 0x2E && bs[o + 1] == 0x2E),
-        starts_with_at(bs, o, lit(".")) == (0 <= o < bs.len() && bs[o] == 0x2E),
-        starts_with_at(bs, o, lit("+")) == (0 <= o < bs.len() && bs[o] == 0x2B),
-        starts_with_at(bs, o, lit("-")) == (0 <= o < bs.len() && bs[o] == 0x2D),
-        starts_with_at(bs, o, lit("*")) == (0 <= o < bs.len() && bs[o] == 0x2A),
-        starts_with_at(bs, o, lit("/")) == (0 <= o < bs.len() && bs[o] == 0x2F),
-        lit("%%").len() == 2 && starts_with_at(bs, o, lit("%%")) == (0 <= o && o + 2 <= bs.len() && bs[o] == 0x25 && bs[o + 1] == 0x25),
-        starts_with_at(bs, o, lit("%")) == (0 <= o < bs.len() && bs[o] == 0x25),
-        lit("==").len() == 2 && starts_with_at(bs, o, lit("==")) == (0 <= o && o + 2 <= bs.len() && bs[o] == 0x3D && bs[o + 1] == 0x3D),
-        lit("!=").len() == 2 && starts_with_at(bs, o, lit("!=")) == (0 <= o && o + 2 <= bs.len() && bs[o] == 0x21 && bs[o + 1] == 0x3D),
-        starts_with_at(bs, o, lit("~")) == (0 <= o < bs.len() && bs[o] == 0x7E),
-        lit("!~").len() == 2 && starts_with_at(bs, o, lit("!~")) == (0 <= o && o + 2 <= bs.len() && bs[o] == 0x21 && bs[o + 1] == 0x7E),
-        starts_with_at(bs, o, lit(">")) == (0 <= o < bs.len() && bs[o] == 0x3E),
-        lit(">=").len() == 2 && starts_with_at(bs, o, lit(">=")) == (0 <= o && o + 2 <= bs.len() && bs[o] == 0x3E && bs[o + 1] == 0x3D),
-        lit("<=").len() == 2 && starts_with_at(bs, o, lit("<=")) == (0 <= o && o + 2 <= bs.len() && bs[o] == 0x3C && bs[o + 1] == 0x3D),
-        starts_with_at(bs, o, lit("<")) == (0 <= o < bs.len() && bs[o] == 0x3C),
-        starts_with_at(bs, o, lit("=")) == (0 <= o < bs.len() && bs[o] == 0x3D),
-        starts_with_at(bs, o, lit(";")) == (0 <= o < bs.len() && bs[o] == 0x3B),
-        lit("::").len() == 2 && starts_with_at(bs, o, lit("::")) == (0 <= o && o + 2 <= bs.len() && bs[o] == 0x3A && bs[o + 1] == 0x3A),
-        starts_with_at(bs, o, lit(":")) == (0 <= o < bs.len() && bs[o] == 0x3A),
-        starts_with_at(bs, o, lit("[")) == (0 <= o < bs.len() && bs[o] == 0x5B),
-        starts_with_at(bs, o, lit("]")) == (0 <= o < bs.len() && bs[o] == 0x5D),
-        lit("=>").len() == 2 && starts_with_at(bs, o, lit("=>")) == (0 <= o && o + 2 <= bs.len() && bs[o] == 0x3D && bs[o + 1] == 0x3E),
-        lit("&&").len() == 2 && starts_with_at(bs, o, lit("&&")) == (0 <= o && o + 2 <= bs.len() && bs[o] == 0x26 && bs[o + 1] == 0x26),
-        lit("||").len() == 2 && starts_with_at(bs, o, lit("||")) == (0 <= o && o + 2 <= bs.len() && bs[o] == 0x7C && bs[o + 1] == 0x7C),
-        starts_with_at(bs, o, lit("|")) == (0 <= o < bs.len() && bs[o] == 0x7C),
-        starts_with_at(bs, o, lit("select")) ==> 0 <= o < bs.len() && bs[o] == 0x73,
-        lit("in").len() == 2 && starts_with_at(bs, o, lit("in")) == (0 <= o && o + 2 <= bs.len() && bs[o] == 0x69 && bs[o + 1] == 0x6E),
-        lit("is").len() == 2 && starts_with_at(bs, o, lit("is")) == (0 <= o && o + 2 <= bs.len() && bs[o] == 0x69 && bs[o + 1] == 0x73),
-        starts_with_at(bs, o, lit("not")) ==> 0 <= o < bs.len() && bs[o] == 0x6E,
-        starts_with_at(bs, o, lit("TRACE")) ==> 0 <= o < bs.len() && bs[o] == 0x54,
-        starts_with_at(bs, o, lit("fail")) ==> 0 <= o < bs.len() && bs[o] == 0x66,
-        starts_with_at(bs, o, lit("func")) ==> 0 <= o < bs.len() && bs[o] == 0x66,
-        starts_with_at(bs, o, lit("module")) ==> 0 <= o < bs.len() && bs[o] == 0x6D,
-        starts_with_at(bs, o, lit("let")) ==> 0 <= o < bs.len() && bs[o] == 0x6C,
-        starts_with_at(bs, o, lit("import")) ==> 0 <= o < bs.len() && bs[o] == 0x69,
-        starts_with_at(bs, o, lit("include")) ==> 0 <= o < bs.len() && bs[o] == 0x69,
-        starts_with_at(bs, o, lit("assert")) ==> 0 <= o < bs.len() && bs[o] == 0x61,
-        starts_with_at(bs, o, lit("out")) ==> 0 <= o < bs.len() && bs[o] == 0x6F,
-        starts_with_at(bs, o, lit("constraint")) ==> 0 <= o < bs.len() && bs[o] == 0x63,
-        starts_with_at(bs, o, lit("convert")) ==> 0 <= o < bs.len() && bs[o] == 0x63,
-        lit("as").len() == 2 && starts_with_at(bs, o, lit("as")) == (0 <= o && o + 2 <= bs.len() && bs[o] == 0x61 && bs[o + 1] == 0x73),
-        starts_with_at(bs, o, lit("map")) ==> 0 <= o < bs.len() && bs[o] == 0x6D,
-        starts_with_at(bs, o, lit("filter")) ==> 0 <= o < bs.len() && bs[o] == 0x66,
-        starts_with_at(bs, o, lit("reduce")) ==> 0 <= o < bs.len() && bs[o] == 0x72,
-        starts_with_at(bs, o, lit("NULL")) ==> 0 <= o < bs.len() && bs[o] == 0x4E,
-        starts_with_at(bs, o, lit("true")) ==> 0 <= o < bs.len() && bs[o] == 0x74,
-        starts_with_at(bs, o, lit("false")) ==> 0 <= o < bs.len() && bs[o] == 0x66,
-{
-    lemma_lits();
-    lemma_starts_1(bs, o, 0x2C);
-    lemma_starts_1(bs, o, 0x7B);
-    lemma_starts_1(bs, o, 0x7D);
-    lemma_starts_1(bs, o, 0x28);
-    lemma_starts_1(bs, o, 0x29);
-    lemma_starts_2(bs, o, 0x2E, 0x2E);
-    lemma_starts_1(bs, o, 0x2E);
-    lemma_starts_1(bs, o, 0x2B);
-    lemma_starts_1(bs, o, 0x2D);
-    lemma_starts_1(bs, o, 0x2A);
-    lemma_starts_1(bs, o, 0x2F);
-    lemma_starts_2(bs, o, 0x25, 0x25);
-    lemma_starts_1(bs, o, 0x25);
-    lemma_starts_2(bs, o, 0x3D, 0x3D);
-    lemma_starts_2(bs, o, 0x21, 0x3D);
-    lemma_starts_1(bs, o, 0x7E);
-    lemma_starts_2(bs, o, 0x21, 0x7E);
-    lemma_starts_1(bs, o, 0x3E);
-    lemma_starts_2(bs, o, 0x3E, 0x3D);
-    lemma_starts_2(bs, o, 0x3C, 0x3D);
-    lemma_starts_1(bs, o, 0x3C);
-    lemma_starts_1(bs, o, 0x3D);
-    lemma_starts_1(bs, o, 0x3B);
-    lemma_starts_2(bs, o, 0x3A, 0x3A);
-    lemma_starts_1(bs, o, 0x3A);
-    lemma_starts_1(bs, o, 0x5B);
-    lemma_starts_1(bs, o, 0x5D);
-    lemma_starts_2(bs, o, 0x3D, 0x3E);
-    lemma_starts_2(bs, o, 0x26, 0x26);
-    lemma_starts_2(bs, o, 0x7C, 0x7C);
-    lemma_starts_1(bs, o, 0x7C);
-    if starts_with_at(bs, o, lit("select")) { lemma_starts_first(bs, o, lit("select")); }
-    lemma_starts_2(bs, o, 0x69, 0x6E);
-    lemma_starts_2(bs, o, 0x69, 0x73);
-    if starts_with_at(bs, o, lit("not")) { lemma_starts_first(bs, o, lit("not")); }
-    if starts_with_at(bs, o, lit("TRACE")) { lemma_starts_first(bs, o, lit("TRACE")); }
-    if starts_with_at(bs, o, lit("fail")) { lemma_starts_first(bs, o, lit("fail")); }
-    if starts_with_at(bs, o, lit("func")) { lemma_starts_first(bs, o, lit("func")); }
-    if starts_with_at(bs, o, lit("module")) { lemma_starts_first(bs, o, lit("module")); }
-    if starts_with_at(bs, o, lit("let")) { lemma_starts_first(bs, o, lit("let")); }
-    if starts_with_at(bs, o, lit("import")) { lemma_starts_first(bs, o, lit("import")); }
-    if starts_with_at(bs, o, lit("include")) { lemma_starts_first(bs, o, lit("include")); }
-    if starts_with_at(bs, o, lit("assert")) { lemma_starts_first(bs, o, lit("assert")); }
-    if starts_with_at(bs, o, lit("out")) { lemma_starts_first(bs, o, lit("out")); }
-    if starts_with_at(bs, o, lit("constraint")) { lemma_starts_first(bs, o, lit("constraint")); }
-    if starts_with_at(bs, o, lit("convert")) { lemma_starts_first(bs, o, lit("convert")); }
-    lemma_starts_2(bs, o, 0x61, 0x73);
-    if starts_with_at(bs, o, lit("map")) { lemma_starts_first(bs, o, lit("map")); }
-    if starts_with_at(bs, o, lit("filter")) { lemma_starts_first(bs, o, lit("filter")); }
-    if starts_with_at(bs, o, lit("reduce")) { lemma_starts_first(bs, o, lit("reduce")); }
-    if starts_with_at(bs, o, lit("NULL")) { lemma_starts_first(bs, o, lit("NULL")); }
-    if starts_with_at(bs, o, lit("true")) { lemma_starts_first(bs, o, lit("true")); }
-    if starts_with_at(bs, o, lit("false")) { lemma_starts_first(bs, o, lit("false")); }
-}
-// the token's text is the text at its position
-pub open spec fn token_text(bs: Seq<u8>, o: int, e: int, tok: Token) -> bool {
-    let f = encode_utf8(tok.fragment@);
-    match tok.typ {
-        // operators, punctuation, numbers, true/false, NULL: the token is exactly the source text it covers
-        TokenType::PUNCT | TokenType::BOOLEAN | TokenType::EMPTY | TokenType::DIGIT =>
-            f.len() > 0 && starts_with_at(bs, o, f) && e == o + f.len(),
-        // words: exactly the source text; a keyword also covers the separator that must follow it
-        TokenType::BAREWORD => f.len() > 0 && starts_with_at(bs, o, f) && o + f.len() <= e,
-        TokenType::COMMENT => starts_comment(bs, o) && f == bs.subrange(o + 2, cmt_end(bs, o + 2)) && e == cmt_next(bs, cmt_end(bs, o + 2)),
-        TokenType::WS => tok.fragment@.len() == 0 && e == ws_end(bs, o) && e > o,
-        TokenType::END => tok.fragment@.len() == 0 && e == o && o >= bs.len(),
-        // strings: from the opening to the closing quote (the VALUE is unit lit_roundtrip's contract)
-        TokenType::QUOTED => o + 2 <= e && bs[o] == 0x22 && bs[e - 1] == 0x22,
-        TokenType::PIPEQUOTE => false,
-    }
-}
-// what every token satisfies, whichever recogniser made it
-pub open spec fn token_shape<'a>(i: OffsetStrIter<'a>, rest: OffsetStrIter<'a>, tok: Token) -> bool {
-    let bs = bytes_of(i); let o = off_of(i); let e = off_of(rest);
-    // the rest is the same stepper further on, still reporting true positions
-    &&& moved(i, rest, e) && o <= e <= bs.len()
-    // the token reports the line, column and byte offset at which it really starts
-    &&& pos_is(tok.pos, i)
-    // progress: only the END token, at the end of the input, is empty
-    &&& (e == o ==> tok.typ is END)
-    // tokens end on character boundaries
-    &&& (on_boundary(bs, o) ==> on_boundary(bs, e))
-    &&& token_text(bs, o, e, tok)
-}
-// layout: whitespace, comments and the end of the input are recognised wherever they start
-pub open spec fn token_layout<'a>(i: OffsetStrIter<'a>, r: Result<OffsetStrIter<'a>, Token>) -> bool {
-    let bs = bytes_of(i); let o = off_of(i);
-    &&& ws_end(bs, o) != o ==> (r matches Result::Complete(rest, tok) && tok.typ is WS)
-    &&& starts_comment(bs, o) ==> (r matches Result::Complete(rest, tok) && tok.typ is COMMENT)
-    &&& o >= bs.len() ==> (r matches Result::Complete(rest, tok) && tok.typ is END)
-}
-pub proof fn lemma_ws_first(bs: Seq<u8>, o: int)
-    ensures ws_end(bs, o) != o ==> 0 <= o < bs.len() && (ws_ascii(bs[o]) || bs[o] == 0x85 || bs[o] == 0xA0),
-        o >= bs.len() ==> ws_end(bs, o) == o,
-{
-    if 0 <= o < bs.len() { lemma_ws_dep_set(bs[o]); }
-}
-// "Adjacent characters always form the longest operator": wherever the input starts with the two-character operator
-// `op`, the token IS `op` (not its one-character prefix), whatever follows
-pub open spec fn longest_op<'a>(i: OffsetStrIter<'a>, r: Result<OffsetStrIter<'a>, Token>, op: &str) -> bool {
-    starts_with_at(bytes_of(i), off_of(i), lit(op)) ==>
-        (r matches Result::Complete(rest, tok) && tok.typ is PUNCT && tok.fragment@ == op@ && off_of(rest) == off_of(i) + 2)
-}
-pub proof fn lemma_subrange_starts(bs: Seq<u8>, o: int, e: int)
-    requires 0 <= o <= e <= bs.len()
-    ensures starts_with_at(bs, o, bs.subrange(o, e)), bs.subrange(o, e).len() == e - o
-{
-}
-
-// `token` is one expression: an either! over 57 recognisers.  Its three groups of obligations are discharged on three
-// extractions of the SAME function text (the second and third only renamed), so that each SMT query stays small:
-//   token           every token has the shape demanded of a token (text, extent, position, progress); never Abort
-//   token__layout   whitespace, comments and the end of input are recognised wherever they start
-//   token__longest  the longest-operator rule
-// In all three the recogniser contracts are used as they stand; `hide` only keeps Z3 from unfolding definitions that the
-// step does not need.
-//@ extract src/tokenizer/mod.rs :: fn token
-//@   ret r
-//@   sig <<<
-    requires wf_osi(input)
-    ensures
-        !(r is Abort),
-        r matches Result::Complete(rest, tok) ==> token_shape(input, rest, tok),
-//@   >>>
-//@   body_start <<<
-    // every recogniser establishes token_shape itself: here it is only passed on
-    hide(token_shape); hide(ws_end); hide(cmt_end); hide(run_end); hide(sep_at); hide(sep_end); hide(cmt_next); hide(sym_at); hide(ws_ascii_end);
-//@   >>>
-//@ end
-
-//@ extract src/tokenizer/mod.rs :: fn token
-//@   subst "fn token<'a>" => "fn token__layout<'a>"
-//@   ret r
-//@   sig <<<
-    requires wf_osi(input)
-    ensures token_layout(input, r)
-//@   >>>
-//@   body_start <<<
-    hide(token_shape); hide(ws_end); hide(cmt_end); hide(run_end); hide(sep_at); hide(sep_end); hide(cmt_next); hide(sym_at); hide(ws_ascii_end);
-    proof {
-        let bs = bytes_of(input); let o = off_of(input);
-        lemma_first_bytes(bs, o);
-        lemma_ws_first(bs, o);
-    }
-//@   >>>
-//@   mutant slash_before_comment "comment, slashtok," => "slashtok, comment," expect token__layout
-//@   mutant whitespace_not_a_token "barewordtok, whitespace, end_of_input" => "barewordtok, end_of_input" expect token__layout
-//@ end
-
-//@ extract src/tokenizer/mod.rs :: fn token
-//@   subst "fn token<'a>" => "fn token__longest<'a>"
-//@   ret r
-//@   sig <<<
-    requires wf_osi(input)
-    ensures
-        longest_op(input, r, "=="), longest_op(input, r, "=>"), longest_op(input, r, ">="), longest_op(input, r, "<="),
-        longest_op(input, r, ".."), longest_op(input, r, "::"), longest_op(input, r, "&&"), longest_op(input, r, "||"),
-        longest_op(input, r, "%%"), longest_op(input, r, "!="), longest_op(input, r, "!~"),
-//@   >>>
-//@   body_start <<<
-    hide(token_shape); hide(ws_end); hide(cmt_end); hide(run_end); hide(sep_at); hide(sep_end); hide(cmt_next); hide(sym_at); hide(ws_ascii_end);
-    proof { lemma_first_bytes(bytes_of(input), off_of(input)); }
-//@   >>>
-//@   mutant eq_before_eqeq "eqeqtok, notequaltok," => "equaltok, eqeqtok, notequaltok," expect token__longest
-//@   mutant dot_before_dotdot "dotdottok, dottok," => "dottok, dotdottok," expect token__longest
-//@   mutant pipe_before_or "ortok, pipetok," => "pipetok, ortok," expect token__longest
-//@   mutant gt_before_ge "complete!(\"Not >=\".to_string(), gtequaltok)," => "gttok, complete!(\"Not >=\".to_string(), gtequaltok)," expect token__longest
-//@   mutant colon_before_dcolon "doublecolontok, colontok," => "colontok, doublecolontok," expect token__longest
-//@ end
 
 } // verus!
 
